@@ -1,8 +1,12 @@
 """C18 -- the pipeline never fails internally and always terminates."""
 import sys
 
-from sim import pipeline
+from sim import driver, pipeline
 from sim.pcheck import PipelineCheck
+
+# import the driver before any simulated run: its import draws from src.utils.random, which
+# must not happen inside (and be charged to) a run
+driver.hmod()
 
 
 def ast_depth(program):
@@ -28,7 +32,11 @@ class C18(PipelineCheck):
     RULE = ('one evaluation = one simulated pipeline run (generate, 0-3 erasure rounds, '
             'overwriting, translation after every stage) under a seeded choice tape with '
             'swarm configuration (language, 4 switches, max_depth 1-9, rounds, timeout), '
-            'buggify bias, early timer fires and clock jumps; distinct non-trivial = distinct '
+            'buggify bias, early timer fires and clock jumps; 30 % of the runs continue as a '
+            'session of 3-7 further programs in the same process with a small identifier pool '
+            '(P9); 12 % of the evaluations are instead whole sessions of the real hephaestus.py '
+            'with the real generator on the simulated worker pool with process-private module '
+            'state (P10); distinct non-trivial = distinct '
             'choice-tape digest of a run whose generation stage finished')
     ASSUMPTIONS = [
         'work is measured in deterministic work units (tape entries + visitor steps + '
@@ -37,13 +45,132 @@ class C18(PipelineCheck):
         'budget-exhaustion judged as a rate over unbiased runs (<= 25 %)',
     ]
     PROBES = ('depth>=7', 'rounds>=2', 'timer_fired', 'erasure_transformed',
-              'overwriting_transformed', 'session_programs', 'session_pool_half_used')
+              'overwriting_transformed', 'session_programs', 'session_pool_half_used',
+              'driver_sessions', 'driver_pool_sessions', 'driver_programs')
     MAX_DEPTH = (1, 9)
     tiers = {'quick': {'runs': 320, 'wall_s': 60, 'run_timeout_s': 300},
              'thorough': {'runs': 6000, 'wall_s': 1100, 'run_timeout_s': 900}}
 
     def before_run(self, run, sim, plan):
         sys.setrecursionlimit(2 * 1000 + 200)
+
+    # -- P10: whole driver sessions with the real generator ---------------------------------
+    DRIVER_SHARE = 0.12
+
+    @staticmethod
+    def make_driver_plan(run_seed):
+        import random as _r
+        from sim.core import h64, LANGS
+        r = _r.Random(h64(run_seed, 'c18-driver'))
+        return {'run_seed': run_seed, 'driver': True, 'language': r.choice(LANGS),
+                'mode': 'pool' if r.random() < 0.6 else 'seq', 'workers': r.randint(1, 3),
+                'iterations': r.randint(8, 16), 'batch': r.choice([1, 2, 3, 6]),
+                't': r.choice([0, 0, 1]), 'P': r.random() < 0.3, 'keep_all': r.random() < 0.2,
+                'dry_run': False, 'generator': 'real', 'max_depth': r.randint(1, 3),
+                'word_pool': r.randint(150, 260), 'print_stacktrace': True,
+                'programs': {}, 'batches': {}}
+
+    def make_plan(self, run_seed):
+        from sim.core import h64
+        if (h64(run_seed, 'c18-kind') % 1000) < 1000 * self.DRIVER_SHARE:
+            return self.make_driver_plan(run_seed)
+        return super().make_plan(run_seed)
+
+    def run_one(self, run_seed, plan=None):
+        if plan is None:
+            plan = self.make_plan(run_seed)
+        if not plan.get('driver'):
+            return super().run_one(run_seed, plan)
+        return self.run_driver(plan)
+
+    def minimise(self, plan, sig, max_exec=40):
+        if plan.get('driver'):
+            return self.minimise_driver(plan, sig)
+        return super().minimise(plan, sig, max_exec)
+
+    def minimise_driver(self, plan, sig):
+        best = dict(plan)
+        for key, vals in (('iterations', (3, 5, 8)), ('workers', (1,)), ('batch', (1,)),
+                          ('t', (0,)), ('keep_all', (False,)), ('P', (True,))):
+            for x in vals:
+                if best.get(key) == x or (key == 'iterations' and x >= best['iterations']):
+                    continue
+                cand = dict(best)
+                cand[key] = x
+                if self._reproduces(cand, sig):
+                    best = cand
+                    break
+        return best
+
+    def run_driver(self, plan):
+        """One whole session of the real hephaestus.py with the REAL generator, mutations and
+        translators (scripted compiler that agrees with every expectation), sequentially or on
+        the simulated worker pool with process-private module state, and with a small
+        identifier pool so that 8-16 programs stand for a session of hundreds.  Every program
+        the driver reports as failed -- gen_program converts any exception of the pipeline into
+        a 'tool failure' that the user sees as a fault of the compiler under test -- is an
+        internal failure, unless that one program drew the whole identifier pool by itself."""
+        import re
+        from sim.core import Sim, SimBudget
+        sim = Sim(plan['run_seed'], buggify=False, budget=6_000_000, language=plan['language'])
+        sim.install(plan['language'])
+        s = driver.Session(plan['run_seed'], plan, sim)
+        status = 'ok'
+        v = []
+        probes = {'driver_sessions': 1}
+        try:
+            try:
+                s.run()
+            except SimBudget:
+                status = 'budget'
+            if status == 'ok':
+                big = max([u for u, _ in s.words_drawn.values()] or [0])
+                if s.exc is not None and 'Cannot choose from an empty sequence' in str(s.exc) \
+                        and big >= s.pool_size - 2:
+                    # the knob's doing: one program drew the whole (small) pool by itself and
+                    # _run found no package name left for the next program of the batch
+                    probes['driver_pool_exhausted_by_one_program'] = 1
+                elif s.exc is not None:
+                    v.append({'rule': 'no-exception-in-session',
+                              'sig': 'exc|driver-session|%s' % driver.exc_brief(s.exc).split(':')[0],
+                              'detail': 'the session (mode=%s) ended with %s' % (
+                                  plan['mode'], driver.exc_brief(s.exc))})
+                for pid in sorted(s.results):
+                    res = s.results[pid]
+                    probes['driver_programs'] = probes.get('driver_programs', 0) + 1
+                    if not res.failed:
+                        continue
+                    err = str(res.stats.get('error') or '')
+                    used, left = s.words_drawn.get(pid, (0, 0))
+                    if 'Cannot choose from an empty sequence' in err and used >= s.pool_size:
+                        continue          # this one program drew the whole pool by itself
+                    last = err.strip().split('\n')[-1][:120]
+                    frames = re.findall(r'File "[^"]*/(?:src/[^"]*/)?([^"/]+)", line \d+, in (\w+)',
+                                        err)[-3:]
+                    v.append({'rule': 'no-exception-in-session',
+                              'sig': 'exc|driver-gen_program|%s|%s' % (
+                                  last.split(':')[0], '<'.join('%s:%s' % f for f in reversed(frames))),
+                              'detail': 'program %d of a %s session (%s, depth %d, %d worker(s), '
+                                        'identifier pool of %d words; this program had drawn %d, '
+                                        '%d were left) was reported as a tool failure: %s' % (
+                                            pid, plan['mode'], plan['language'], plan['max_depth'],
+                                            plan['workers'], s.pool_size, used, left, last)})
+                    break
+                if plan['mode'] == 'pool':
+                    probes['driver_pool_sessions'] = 1
+        finally:
+            s.cleanup()
+        seen = set()
+        v = [x for x in v if not (x['sig'] in seen or seen.add(x['sig']))]
+        return {'status': status, 'violations': v, 'digest': sim.log_digest(),
+                'sim_ms': (sim.now - 1_600_000_000.0) * 1000.0, 'feature': sim.rand.digest(),
+                'faults': {'P10_driver_session': 1, 'D8_pool_schedule': 1 if plan['mode'] == 'pool' else 0},
+                'probes': probes, 'obligations': {'no-exception': len(s.results)},
+                'unbiased': 0, 'ast_depth': None, 'max_depth': plan['max_depth'],
+                'sample': {'driver_plan': {k: plan[k] for k in (
+                    'language', 'mode', 'workers', 'iterations', 'batch', 't', 'max_depth',
+                    'word_pool')}, 'programs': len(s.results), 'schedule': s.sched_log[:30]},
+                'plan': dict(plan) if v else None}
 
     def session_tail(self, run, sim, plan, probes):
         """P9: the rest of a driver session in the same process.  hephaestus.gen_program is
